@@ -381,6 +381,8 @@ func (r *runner) doStep(st Step) {
 	case "sendfail":
 		r.rec.Log("SendFailArmed")
 		r.ch.FailSends()
+	case "closefail": // Close will close the channel and complain
+		r.ch.FailClose(errors.New("transport: error while closing"))
 	case "sendheal": // the failure was transient
 		r.rec.Log("SendHealed")
 		r.ch.HealSends()
